@@ -26,10 +26,10 @@ import (
 type CondProgram struct {
 	Decls    *Program
 	Resource bool
-	Funcs    []string // functions T has ("f", "g")
-	Ifaces   []string // interfaces T conforms to (transitively), usable as static type of the receiver
-	Shape    string   // DAG shape + implementation levels (distinctness key)
-	NConds map[string]int // function -> number of boolean conditions (own + inherited), without nested calls
+	Funcs    []string       // functions T has ("f", "g")
+	Ifaces   []string       // interfaces T conforms to (transitively), usable as static type of the receiver
+	Shape    string         // DAG shape + implementation levels (distinctness key)
+	NConds   map[string]int // function -> number of boolean conditions (own + inherited), without nested calls
 	// Diamonds classifies the conformance lists met by the depth-first walk from
 	// T (the walk that computes the effective conformances): for every list with
 	// >= 2 entries that mentions an interface already reached earlier:
